@@ -1,0 +1,3 @@
+// Package verifhook holds schedule points used only by the external verification harness.
+// Without the build tag "verif" every function here is an empty, inlinable no-op.
+package verifhook // import "berty.tech/go-orbit-db/verifhook"
